@@ -295,7 +295,7 @@ fn create_mod_name_for_namespace(abbreviation: &str) -> String {
 fn try_to_find_node_by_xml_name_in_xml_doc<'n>(
     start_node: &'n Node<'n, 'n>,
     xml_name: &str,
-    _namespace: Option<&Namespace>,
+    namespace: Option<&Namespace>,
     kind: Option<ComponentKind>,
     doc: &mut RustDocument,
 ) -> WriterResult<RustNode> {
@@ -309,9 +309,16 @@ fn try_to_find_node_by_xml_name_in_xml_doc<'n>(
     for node in start_node.descendants() {
         // only global components (the children of a schema) can be the target of a reference;
         // a local element or attribute that happens to carry the same name is not
-        let is_global = node.parent().is_some_and(|p| p.tag_name().name() == "schema");
+        let schema = node.parent().filter(|p| p.tag_name().name() == "schema");
+        let is_global = schema.is_some();
+        // a reference into another namespace is not answered by a component of this schema that
+        // happens to carry the same local name
+        let is_in_wanted_namespace = match (namespace, schema.and_then(|s| s.attribute("targetNamespace"))) {
+            (Some(wanted), Some(target_namespace)) => wanted.namespace == target_namespace,
+            _ => true,
+        };
         let is_wanted_kind = kind.is_none_or(|k| k.matches_tag(node.tag_name().name()));
-        if node.is_element() && is_global && is_wanted_kind {
+        if node.is_element() && is_global && is_in_wanted_namespace && is_wanted_kind {
             // do a quick check on the name of the node, so we can skip the more expensive try_from_node
             if let Some(node_name) = node.attribute("name") {
                 let (node_name, _node_namespace) = resolve_type(node_name, doc);
